@@ -89,6 +89,10 @@ def _mindim(kind, name, mind):
     return mind
 
 
+def numba_templates():
+    return [("numba", v) for v in range(6)]
+
+
 def register_templates():
     """register_awkward() racing with Awkward construction and use: 24 variants x 4 schedules."""
     return [("register", v, q) for q in range(4) for v in range(24)]
@@ -112,6 +116,9 @@ def gen_case(seed, tier, focus):
     elif idx >= 70000:
         tpl = register_templates()
         t = tpl[(idx - 70000) % len(tpl)]
+    elif idx >= 60000:
+        tpl = numba_templates()
+        t = tpl[(idx - 60000) % len(tpl)]
     else:
         tpl = templates()
         t = tpl[idx % len(tpl)]
@@ -119,7 +126,7 @@ def gen_case(seed, tier, focus):
     g = G.WorldGen(rng.randrange(1 << 30), tier, focus or "C20")
     g.rng = rng
     fn = {"raise": _raise_case, "rendezvous": _rendezvous_case, "register": _register_case, "mutators": _mutator_case,
-          "reach": _reach_case, "pair": _pair_case}[t[0]]
+          "reach": _reach_case, "pair": _pair_case, "numba": _numba_case}[t[0]]
     w = fn(g, rng, t)
     w["seed"] = seed
     w["directed"] = list(map(str, t))
@@ -424,4 +431,23 @@ def _pair_case(g, rng, t):
         progs.append(prog)
     sched = {"kind": "sites", "seed": rng.randrange(1 << 30), "p": rng.choice((1.0, 1.0, 0.5)), "which": ["with", "store", "flag", "func"],
              "domain": "line", "observe": 2}
+    return _finish(g, k, progs, [], sched, niso=0)
+
+
+def _numba_case(g, rng, t):
+    """register_numba(): the child has never imported numba; first call, repeated calls (same and other thread),
+    ordinary operations before / between / after."""
+    _, variant = t
+    nthreads = 1 if variant % 3 == 0 else 2
+    k = _base_knobs(g, nthreads)
+    k["backends"] = {"obj": True, "np": True, "ak": variant % 2 == 0, "sym": False}
+    for d in (2, 3, 4):
+        g.mk_obj(k, dim=d)
+        g.mk_np(k, dim=d, shape=[3])
+    reg = {"f": "vector.register_numba", "reg": "numba", "cat": "register"}
+    progs = [_dispatching_ops(g, rng, 1, be=("obj", "np")) + [dict(reg)] + _dispatching_ops(g, rng, 2, be=("obj", "np")) + [dict(reg)]]
+    if nthreads == 2:
+        progs.append([dict(reg)] + _dispatching_ops(g, rng, 2, be=("obj", "np")) + [dict(reg)])
+    sched = {"kind": rng.choice(("sites", "walk")), "seed": rng.randrange(1 << 30), "p": 0.3, "which": ["with", "store", "func"], "domain": "line", "observe": 0,
+             "observe_mut": 0}
     return _finish(g, k, progs, [], sched, niso=0)
